@@ -170,7 +170,15 @@ func (w *World) durableReach() *Violation {
 func regProp(id, level, rule string, verdict []string, which regWhich, nontrivial func(w *World, run *Stats, levels, slabs int) bool, expected []string) {
 	stdProp(&PropSpec{ID: id, Level: level, Verdict: verdict, Rule: rule, ExpectedReach: expected}, stdHooks{
 		config:  func(r *Rng, tier string) Config { return baseConfig(r, "size-adversarial", tier) },
-		profile: sizeAdversarialProfile,
+		profile: func(r *Rng, cfg Config) *Profile {
+			p := sizeAdversarialProfile(r, cfg)
+			if id == "C09" {
+				// some commits meet a failing ledger write or delete on their first attempt and are retried: a
+				// deletion forgotten after a rejected delete leaves a register nobody references
+				p.CommitFaultProb = []float64{0, 0.15, 0.4}[r.Sub("commit-faults").Intn(3)]
+			}
+			return p
+		},
 		setup: func(w *World) {
 			if which.reach {
 				w.AfterStep = func(w *World, st *Step) *Violation {
@@ -222,7 +230,7 @@ func init() {
 		[]string{"reach.inlined-children", "reach.compact-encoding", "reach.external-group", "reach.large-value"})
 
 	regProp("C09", "exploration",
-		"histories in which the driver disposes of every value handed back (recursive pop + removal of referenced slabs) crossing large-value, inline<->standalone, collision-group, merge and promotion lifecycles; after every stride the register set of the view (and after every commit the durable register set alone) must equal the set reachable from the live roots by the independent parser, each non-root referenced once, one owner per tree; non-trivial = a removal or overwrite returned a slab reference that was disposed of and >= 3 slabs existed; distinct by trace hash",
+		"histories in which the driver disposes of every value handed back (recursive pop + removal of referenced slabs) crossing large-value, inline<->standalone, collision-group, merge and promotion lifecycles; some commits meet a failing ledger write or delete and are retried; after every stride the register set of the view (and after every commit the durable register set alone) must equal the set reachable from the live roots by the independent parser, each non-root referenced once, one owner per tree; non-trivial = a removal or overwrite returned a slab reference that was disposed of and >= 3 slabs existed; distinct by trace hash",
 		[]string{"reach.", "dispose", "reg.parse"},
 		regWhich{reach: true},
 		func(w *World, run *Stats, levels, slabs int) bool { return run.C["dispose.slabref"] > 0 && slabs >= 3 },
